@@ -7,6 +7,7 @@
 From Coq Require Import String ZArith NArith List Bool.
 From HV Require Import Base.Keccak Model.SetOps Gen.GenInvFilters Spec.FrontierSpec Model.FrontierModel Proofs.FrontierProofs.
 From HV Require Import Spec.StateIdSpec Model.StateIdModel Gen.GenStorageDigest Gen.GenStateId Proofs.StateIdProofs.
+From HV Require Import Spec.PathSliceSpec Model.PathSliceModel Gen.GenPathSlice Proofs.PathSliceProofs.
 Import ListNotations.
 Open Scope Z_scope.
 
@@ -252,6 +253,44 @@ Proof.
   intros addr st k v I1 I2. destruct I1 as [I1 | []]. injection I1 as _ I1. subst st.
   destruct I2 as [I2 | []]. injection I2 as I2 _. subst k. reflexivity.
 Qed.
+
+(* ------------------------------------------------------------------ the slice: which conditions are constraints on the state *)
+
+(* Path._get_related, the dependency update of Path.append and Path.slice are regenerated from
+   sevm.py.  For every path (any number of conditions, any variable sets) and every set of state
+   variables, the slice is EXACTLY the backward dependency closure of the state variables: the
+   conditions that mention a state variable, and the EARLIER conditions sharing a variable with a
+   condition of the slice. *)
+Theorem C15_slice_exact :
+  forall (vs : list (list Z)) (S : list Z) (i : nat),
+    In i (p_slice (p_build vs) S) <-> constrains_back vs S i.
+Proof. exact slice_exact. Qed.
+Print Assumptions C15_slice_exact.
+
+Theorem C15_slice_direct :
+  forall (vs : list (list Z)) (S : list Z) (i : nat),
+    (i < length vs)%nat -> (exists v, In v (nth i vs []) /\ In v S) -> In i (p_slice (p_build vs) S).
+Proof. exact slice_direct. Qed.
+Print Assumptions C15_slice_direct.
+
+Theorem C15_slice_backward :
+  forall (vs : list (list Z)) (S : list Z) (i j : nat),
+    In j (p_slice (p_build vs) S) -> (i < j)%nat ->
+    (exists v, In v (nth i vs []) /\ In v (nth j vs [])) -> In i (p_slice (p_build vs) S).
+Proof. exact slice_backward. Qed.
+Print Assumptions C15_slice_backward.
+
+(* The constraints on the state (Spec/PathSliceSpec.v constrains: dependency in EITHER order) are
+   not all in the slice.  set(x) payable { s = x; require(x == msg.value); if (msg.value > 9) {} else {} }:
+   condition 1 (`msg.value > 9`) constrains the stored x through condition 0 (`x == msg.value`), the
+   slice is {0}.  The two end states then have the same state id (C15_state_id_complete) although
+   they stand for different concrete states: one is dropped (reproduced end to end: known finding). *)
+Theorem C15_slice_closure_refuted :
+  constrains ForwardInst.vs ForwardInst.S 1 /\
+  p_slice (p_build ForwardInst.vs) ForwardInst.S = [O] /\
+  ~ In 1%nat (p_slice (p_build ForwardInst.vs) ForwardInst.S).
+Proof. exact slice_forward_refuted. Qed.
+Print Assumptions C15_slice_closure_refuted.
 
 (* ------------------------------------------------------------------ the merge hypothesis is necessary *)
 
